@@ -1,5 +1,5 @@
 (* C16 — every patch the packaging tool produces inflates back to the new binary. *)
-From UV Require Import Base Codec Model PMLemmas Inv Ban Handout Calls CodecProofs Chunked Bsdiff BsdiffProofs.
+From UV Require Import Base Codec Model PMLemmas Inv Ban Handout Calls CodecProofs Chunked Bsdiff BsdiffProofs BsdiffSafe.
 
 (* integer-encoding: what the writer emits is what the reader decodes, for every usize / i64 *)
 Theorem C16_varint_u64 :
@@ -130,3 +130,14 @@ Example C16_scan_loop_example_match :
                     (fun sc => if sc <? 2 then (0, 0) else (sc - 2, 14 - sc)) = Ok ms
              /\ 1 < N.of_nat (List.length ms) /\ wf_matches [1;2;3;4;5;6;7;8;9;10;11;12] [9;9;1;2;3;4;5;6;7;8;9;10;11;12] ms = true.
 Proof. eexists. vm_compute. repeat split. Qed.
+
+(* the scan loop never indexes obuf / nbuf out of range and never underflows a usize subtraction: the
+   instrumented twin of the loop (BsdiffSafe.v) checks every unguarded index expression and every subtraction,
+   and under the matcher's bound all checks succeed - with the two theorems above: on any input the tool's scan
+   loop terminates without an index panic and emits a well-formed match list (the remaining way to abort,
+   `oldscore -= 1` on zero, needs a matcher that misses an existing one-byte match) *)
+Theorem C16_scan_loop_index_safe :
+  forall (old new : bytes) (lsm : N -> N * N),
+    lsm_bounded old new lsm -> outer_ok old new lsm (S (S (N.to_nat (nlen new)))) bs0 = true.
+Proof. exact bsdiff_index_safe. Qed.
+Print Assumptions C16_scan_loop_index_safe.
